@@ -104,7 +104,7 @@ class _NoSleep:
     def time(self): return 1_700_000_000.0
 
 BASE = ["get_invocations_to_run", "get_blocking_invocations_to_run", "get_additional_invocations_to_run", "reroute_invocations", "set_invocation_status",
-        "set_invocation_result", "set_invocation_exception"]
+        "set_invocation_result", "set_invocation_exception", "set_invocation_retry"]
 MEM_NAMES = ["_atomic_status_transition", "_get_invocation_lock", "_interanl_atomic_status_transition"]
 GEN = {"get_invocations_to_run", "get_blocking_invocations_to_run", "get_additional_invocations_to_run", "results"}
 ALL = set(BASE + MEM_NAMES + ["retrieve_invocation", "runner_loop_iteration", "run"])
